@@ -7,6 +7,7 @@ package gen
 
 import (
 	"math"
+	"math/big"
 	"regexp"
 	"strconv"
 	"strings"
@@ -242,7 +243,10 @@ func NaturalLiteral(n *uni.Node) (string, bool) {
 }
 
 var wrongLits = []string{"", "abc", "true", "1", "0", "-1", "1.5", "256", "99999999999999999999", "1e400", "0x10", "0b11", "1_000", "T", "nope", "/a", "/usr/bin"}
-var regexPool = []string{".*", "^a", "b$", "[a-c]+", "^$", "(", "[", "a|b", `\d+`, "(?i)A", "^/", "."}
+var regexPool = []string{".*", "^a", "b$", "[a-c]+", "^$", "(", "[", "a|b", `\d+`, "(?i)A", "^/", ".",
+	// invalid patterns whose quoted form is much longer than the pattern (error-message paths)
+	strings.Repeat("\xff", 24), "(?!x)" + strings.Repeat(`\.`, 30), `\1` + strings.Repeat(`\\`, 34), strings.Repeat("\x00", 20) + "(",
+	strings.Repeat("a", 76) + "(", strings.Repeat("é", 40) + "["}
 
 // settle strips interfaces and pointers for literal selection purposes.
 func settle(n *uni.Node) *uni.Node {
@@ -272,7 +276,17 @@ func (g *ExprGen) literalFor(n *uni.Node, op bx.Op) string {
 				b := a + 1 + g.intn(len(r)-a, "rb")
 				s = string(r[a:b])
 			}
-			return regexp.QuoteMeta(s)
+			q := regexp.QuoteMeta(s)
+			// anchored forms: a fully anchored literal is not a substring search
+			switch g.intn(5, "anchor") {
+			case 0:
+				return "^" + q + "$"
+			case 1:
+				return `\A` + q + `\z`
+			case 2:
+				return "^" + q
+			}
+			return q
 		}
 		return regexPool[g.intn(len(regexPool), "re")]
 	}
@@ -384,6 +398,11 @@ func (g *ExprGen) nearMiss(n *uni.Node) string {
 		}
 	case k.IsFloat():
 		f := n.Float()
+		if k == uni.KFloat32 && g.intn(4, "mid") == 0 {
+			if lit, ok := Float32MidpointAbove(float32(f)); ok {
+				return lit
+			}
+		}
 		switch g.intn(5, "fm") {
 		case 0:
 			if k == uni.KFloat32 {
@@ -546,4 +565,23 @@ func (g *ExprGen) perturbRarely(t target) target {
 		return g.perturb(target{parts: t.parts, node: t.node})
 	}
 	return t
+}
+
+// Float32MidpointAbove spells a decimal just above the midpoint between a and the next
+// float32: rounded once it is the successor of a, rounded to float64 first it is a tie.
+func Float32MidpointAbove(a float32) (string, bool) {
+	b := math.Nextafter32(a, float32(math.Inf(1)))
+	if math.IsInf(float64(b), 0) || math.IsNaN(float64(a)) || math.IsInf(float64(a), 0) {
+		return "", false
+	}
+	mid := new(big.Float).SetPrec(200).Add(new(big.Float).SetFloat64(float64(a)), new(big.Float).SetFloat64(float64(b)))
+	mid.Quo(mid, big.NewFloat(2))
+	ms := mid.Text('f', -1)
+	if len(ms) > 300 || strings.HasPrefix(ms, "-") {
+		return "", false
+	}
+	if !strings.Contains(ms, ".") {
+		ms += "."
+	}
+	return ms + "0000000000000000000000000000000001", true
 }
